@@ -29,6 +29,9 @@ FIXED = [
  (["C09"], "39d160b", "GROUP BY key was the concatenation of rendered values: ('a','bc') and ('ab','c') merged into one group", "select split(key,'|')[0] as g0, split(key,'|')[1] as g1, count(1) where true group by g0, g1"),
  (["C14"], "5a16734", "unknown functions and wrong argument counts were found only at execution, after Cursor/Seek (or not at all on an empty store)", "select nosuch(value) where key ^= 'k'"),
  (["C06"], "f27f612", "quantile(x, 0 - 25): a negative percentile passed the range check and panicked (index out of range) when the aggregate completed", "select quantile(int(value), 0 - 25) where true"),
+ (["C14", "C05"], "0a5c3c1", "select fields were type-checked after the where clause: a where expression that names a field defined through another field was checked against a field type computed before that inner alias was resolved (valid statement refused / invalid accepted)", "select int(value) as a, a + 1 as b where b > 1"),
+ (["C05"], "8abcf29", "with the field cache on, a second select field carrying an already used name was filled with the cached value of the first field of that name", "select key as a, value as a where a != 'x'"),
+ (["C09"], "ae03c6f", "min()/max() compared a float with an integer extreme (or an integer with a float extreme) by its truncated value: max over 2, 2.5 returned 2", "select max(value) where true  (values '2', '2.5')"),
 ]
 KNOWN = []
 def main():
